@@ -369,6 +369,12 @@ func runCheck(id, tier string, pl plan) int {
 			}
 		}
 	}
+	var knownClasses []string
+	for _, f := range loadFindings() {
+		if f.Status == "known" && f.Property == id {
+			knownClasses = append(knownClasses, f.Property+"/"+f.Rule+"/"+f.Signature)
+		}
+	}
 	totalW := 0
 	for _, p := range pl.Parts {
 		totalW += p.Weight
@@ -392,7 +398,7 @@ func runCheck(id, tier string, pl plan) int {
 				env := []string{
 					"VERIF_WORLD=" + p.World, "VERIF_PROFILE=" + p.Profile, "VERIF_PROPERTY=" + id, "VERIF_TIER=" + tier,
 					fmt.Sprintf("VERIF_SEED=%d", seed+uint64(pi)*1000003), fmt.Sprintf("VERIF_FROM=%d", w), fmt.Sprintf("VERIF_STRIDE=%d", W),
-					"VERIF_REPLAY_DIR=" + replayDir,
+					"VERIF_REPLAY_DIR=" + replayDir, "VERIF_KNOWN=" + strings.Join(knownClasses, ";"),
 				}
 				timeout := 20 * time.Minute
 				if partBudget > 0 {
